@@ -957,7 +957,17 @@ def r8_program_identity(ctx, sym, rule='R8', entry='parse_program'):
                     if not ok_m:
                         break
     pp = mod.func(entry)
-    ok = any(call_name(c) == 'reparse_if_needed' for c in calls(pp))
+    # (directly, or through helpers of the same module)
+    reach, work_ = set(), [pp]
+    while work_:
+        f_ = work_.pop()
+        for c in calls(f_):
+            n_ = call_name(c)
+            if n_ and n_ not in reach:
+                reach.add(n_)
+                if n_ in mod.functions and len(reach) < 200:
+                    work_.append(mod.functions[n_])
+    ok = 'reparse_if_needed' in reach
     ctx.check(ok, rule, '%s:uses-reparse' % entry, mod, pp, "%s no longer goes through reparse_if_needed" % entry,
               "static checks see a stale tree")
 
